@@ -125,6 +125,19 @@ func C01(c *core.Ctx) {
 	c.Rule("C01-R7", "no totals member changes after something was computed from it (shared with C03-R7)", 5)
 	c03TotalsOrder(c, "C01-R7")
 	c01ProductPrecision(c)
+	// R10: the currency, precision and rule the rows are calculated with are the document's for
+	// every row: nothing set while one row is handled is seen by the next
+	c.Rule("C01-R10", "a loop over document rows carries nothing from one row to the next except a fold (shared with C17-R6)", 6)
+	{
+		sub := core.NewCtx("C17", c.Tier, c.Seed, c.P, c.VerifDir)
+		sub.Quiet = true
+		c17RowLoops(sub)
+		for _, o := range sub.Obligations() {
+			if o.Rule == "C17-R6" {
+				c.ObAt("C01-R10", o.Key, o.Pos, o.OK, o.Msg)
+			}
+		}
+	}
 	// R9: a line's tax is computed on the row its combo joins; a combo that joins a row of
 	// another percentage or surcharge has its tax computed at that row's rate (or not at all)
 	c.Rule("C01-R9", "a line's combo joins only the rate row of its own country, percentage, surcharge and extensions (shared with C02-R1/R6)", 3)
@@ -508,6 +521,7 @@ func C17(c *core.Ctx) {
 	c17Invert(c)
 	c17RowLoops(c)
 	c17SignTests(c)
+	c17NoStoreThroughAmountPointers(c)
 	// R5: row grouping is symmetric (the group a row joins does not depend on which row came first):
 	// the matching predicate's truth table, decided under C02-R1, re-reported here
 	c.Rule("C17-R5", "row grouping predicate equals the symmetric group identity (shared with C02-R1)", 2)
